@@ -2,7 +2,7 @@
 #![allow(deprecated)]
 
 use crate::util::*;
-use crate::words::{MAXWORDS, WORDS};
+use crate::words::{EDGEWORDS, MAXWORDS, WORDS};
 use ssdeep::internal_hashes::{PartialFNVHash, RollingHash};
 
 pub const PROCFS_CANDIDATES: &[&str] =
@@ -885,6 +885,30 @@ fn gen_gen(thorough: bool, r: &mut Rng, emit: Emit) {
         emit(&format!("gen pu:00:{} f u:05 f", n));
         emit(&format!("gen z:{} f u:05 f", n));
     }
+    // boundary values of the trigger test (round-2 seeded change C01: the largest quotient 0x55555555
+    // was no longer recognised): each edge word in a small input (block size 3 stays selected), at the
+    // end of a long run of itself, and — when it ends a piece at level n — after a zero prefix that
+    // makes level n the initial block size, by every update form
+    for (horg, w) in EDGEWORDS.iter() {
+        let lvl: Option<usize> = if *horg != 0 && *horg % 3 == 0 { Some((*horg / 3).trailing_zeros() as usize) } else { None };
+        for form in ["u", "i", "b"] {
+            let pre = r.range(0, 40) as usize;
+            let post = r.range(0, 40) as usize;
+            let mut data: Vec<u8> = rand_payload(r, pre);
+            data.extend_from_slice(w);
+            data.extend_from_slice(&rand_payload(r, post));
+            emit(&format!("gen {}:{} f", form, hexenc(&data)));
+            let reps = r.range(1, 12);
+            emit(&format!("gen p{}:{}:{} f", if form == "b" { "u" } else { form }, hexenc(w), reps));
+        }
+        if let Some(l) = lvl {
+            let l = l.min(30);
+            let reps = r.range(33, 90);
+            emit(&format!("gen z:{} pu:{}:{} f", (192u64 << l).saturating_sub(7 * reps), hexenc(w), reps));
+            emit(&format!("gen z:{} pi:{}:{} f", (192u64 << l) + r.range(1, 100), hexenc(w), reps));
+            emit(&format!("gen pu:{}:{} f", hexenc(w), r.range(64, 200)));
+        }
+    }
     // the `h_org == 0` early exit: a window whose rolling hash is u32::MAX, its last byte delivered
     // by each update form, total sizes on and around block-size borders, with and without a hint
     for w in MAXWORDS.iter() {
@@ -1153,6 +1177,11 @@ pub fn generate(family: &str, thorough: bool, seed: u64, emit: Emit) {
         let mut h = RollingHash::new();
         h.update(w);
         assert!(h.value() == u32::MAX, "max-word table entry invalid");
+    }
+    for (horg, w) in EDGEWORDS.iter() {
+        let mut h = RollingHash::new();
+        h.update(w);
+        assert!(h.value().wrapping_add(1) == *horg, "edge-word table entry invalid");
     }
     match family {
         "prim" => gen_prim(thorough, &mut r, emit),
